@@ -168,8 +168,11 @@ pub fn run_val(tier: &str, seed: u64, out: &mut Out) {
         let st_after: Vec<(String, String)> = stack.iter().take(if with_module { 1 } else { 0 }).cloned().collect();
         let after_ref = after.reference_js(&|n| st_after.iter().rev().find(|x| x.0 == n).map(|x| x.1.clone()));
         // ... nor may they shift the scopes of a loop that follows
-        let src = format!("{}{}T{{{{ {} }}}}{}<w/>A{{{{ {} }}}}<block wx:for=\"{{{{ [7] }}}}\" wx:for-item=\"z9\" wx:for-index=\"z8\">Z{{{{ z9 }}}}{{{{ {} }}}}</block>",
-                          head, open, e_wxml, close, after.wxml(&mut no_extra), after.wxml(&mut no_extra));
+        // the same expression in every attribute family of one element: each position is resolved by the scope analysis
+        let body = format!("<q mark:m=\"{{{{ {e} }}}}\" data:d=\"{{{{ {e} }}}}\" p=\"{{{{ {e} }}}}\" data-h=\"{{{{ {e} }}}}\" id=\"{{{{ {e} }}}}\" class=\"{{{{ {e} }}}}\" style=\"{{{{ {e} }}}}\" slot=\"{{{{ {e} }}}}\">T{{{{ {e} }}}}</q>",
+                           e = e_wxml.replace('"', "&quot;"));
+        let src = format!("{}{}{}{}<w/>A{{{{ {} }}}}<block wx:for=\"{{{{ [7] }}}}\" wx:for-item=\"z9\" wx:for-index=\"z8\">Z{{{{ z9 }}}}{{{{ {} }}}}</block>",
+                          head, open, body, close, after.wxml(&mut no_extra), after.wxml(&mut no_extra));
         let reference = format!("{}const SV = {{sv: 'SLOT-sv', aB: [{{a: 'SLOT-aB', sub: ['s1', 's2']}}], item: {{a: 3, sub: {{k: 'SLOT-item'}}}}, x: 'SLOT-x'}};\n{}out.push('T' + Y({}));\n{}out.push('A' + Y({}));\nout.push('Z7' + Y({}));\nreturn out }})()",
                                 ref_head, ref_open, e_ref, ref_close, after_ref, after_ref);
         let mut g = TmplGroup::new();
